@@ -26,6 +26,16 @@ import (
 //	          Load the constant dataset "ro" with a stepped selection and
 //	          compare with the in-memory slice; Shape; Exists
 //
+// Files: the lock under test is THE package lock (libhdf5 is not thread-safe as
+// a library, not per file), so the stress uses several file names at once:
+//
+//	file A   the shared matrix; even goroutines address it as <dir>/conc.h5,
+//	         odd ones as <dir>/./conc.h5 (same file, different string)
+//	file B   <dir>/other.h5: one more writer and one more reader (2 extra
+//	         goroutines), so that a writer on B runs while A is read and written
+//
+// A lock keyed by file name lets these overlap inside the library.
+//
 // Reports: MutatingOverlaps (must be 0: a library call on a writable handle
 // ran concurrently with another library call), torn rows, wrong reads, errors.
 func runConc(n, rounds int) int {
@@ -35,6 +45,8 @@ func runConc(n, rounds int) int {
 	}
 	defer os.RemoveAll(dir)
 	fn := filepath.Join(dir, "conc.h5")
+	fnAlias := dir + string(filepath.Separator) + "." + string(filepath.Separator) + "conc.h5" // same file, other spelling
+	fnB := filepath.Join(dir, "other.h5")
 	const width = 6
 	writers := n / 2
 	if writers < 1 {
@@ -48,6 +60,11 @@ func runConc(n, rounds int) int {
 	}
 	roData := data.ARangeInt32(60).MustReshape([]int{6, 10})
 	if err := ro.Write(roData); err != nil {
+		fmt.Println("CONC setup-error", err)
+		return 2
+	}
+	mB := owio.H5RefFloat64{Filename: fnB, Dataset: "b/m"}
+	if err := mB.Create([]int{4, width}, 0, false); err != nil {
 		fmt.Println("CONC setup-error", err)
 		return 2
 	}
@@ -66,8 +83,14 @@ func runConc(n, rounds int) int {
 					atomic.AddInt64(&errs, 1)
 				}
 			}()
+			fnA := fn
+			if g%2 == 1 {
+				fnA = fnAlias
+			}
+			m := owio.H5RefFloat64{Filename: fnA, Dataset: "grp/m"}
+			ro := owio.H5RefInt32{Filename: fnA, Dataset: "ro"}
 			if g < writers {
-				own := owio.H5RefFloat64{Filename: fn, Dataset: fmt.Sprintf("own/w%d", g)}
+				own := owio.H5RefFloat64{Filename: fnA, Dataset: fmt.Sprintf("own/w%d", g)}
 				for k := 1; k <= rounds; k++ {
 					v := float64(g*1000 + k)
 					row := data.NewArrayFloat64([]int{1, width})
@@ -109,7 +132,7 @@ func runConc(n, rounds int) int {
 					}
 				case 1:
 					i := (g + k) % writers
-					sel := owio.H5RefFloat64{Filename: fn, Dataset: "grp/m", Slice: [][]int{{i, i + 1, 1}, nil}}
+					sel := owio.H5RefFloat64{Filename: fnA, Dataset: "grp/m", Slice: [][]int{{i, i + 1, 1}, nil}}
 					a, err := sel.Load()
 					if err != nil || a == nil {
 						atomic.AddInt64(&errs, 1)
@@ -122,7 +145,7 @@ func runConc(n, rounds int) int {
 						}
 					}
 				case 2:
-					sel := owio.H5RefInt32{Filename: fn, Dataset: "ro", Slice: [][]int{{1, 6, 2}, {g % 3, 10, 3}}}
+					sel := owio.H5RefInt32{Filename: fnA, Dataset: "ro", Slice: [][]int{{1, 6, 2}, {g % 3, 10, 3}}}
 					a, err := sel.Load()
 					if err != nil || a == nil {
 						atomic.AddInt64(&errs, 1)
@@ -150,6 +173,53 @@ func runConc(n, rounds int) int {
 			}
 		}(g)
 	}
+	// file B: one writer, one reader
+	var lastB float64
+	wg.Add(2)
+	go func() {
+		defer wg.Done()
+		defer func() {
+			if r := recover(); r != nil {
+				atomic.AddInt64(&errs, 1)
+			}
+		}()
+		for k := 1; k <= rounds; k++ {
+			v := float64(900000 + k)
+			row := data.NewArrayFloat64([]int{1, width})
+			for j := 0; j < width; j++ {
+				row.Set([]int{0, j}, v)
+			}
+			if err := mB.WriteSlice(row, []int{k % 4, 0}); err != nil {
+				atomic.AddInt64(&errs, 1)
+			}
+			if k%4 == 0 {
+				lastB = v
+			}
+		}
+	}()
+	go func() {
+		defer wg.Done()
+		defer func() {
+			if r := recover(); r != nil {
+				atomic.AddInt64(&errs, 1)
+			}
+		}()
+		for k := 0; k < rounds; k++ {
+			a, err := mB.Load()
+			if err != nil || a == nil {
+				atomic.AddInt64(&errs, 1)
+				continue
+			}
+			for i := 0; i < 4; i++ {
+				v0 := a.Get([]int{i, 0})
+				for j := 1; j < width; j++ {
+					if a.Get([]int{i, j}) != v0 {
+						atomic.AddInt64(&torn, 1)
+					}
+				}
+			}
+		}
+	}()
 	wg.Wait()
 	hdf5.VerifSetCallDelay(0)
 	st := hdf5.VerifCalls()
@@ -166,12 +236,15 @@ func runConc(n, rounds int) int {
 			}
 		}
 	}
+	if fb, err := mB.Load(); err != nil || fb == nil || (rounds >= 4 && fb.Get([]int{0, 0}) != lastB) {
+		wrong++
+	}
 	ok := st.MutatingOverlaps == 0 && torn == 0 && wrong == 0 && errs == 0
 	status := "ok"
 	if !ok {
 		status = "FAIL"
 	}
-	fmt.Printf("CONC %s goroutines=%d rounds=%d calls=%d mutating_calls=%d overlaps=%d mutating_overlaps=%d max_concurrent=%d torn=%d wrong=%d errors=%d\n",
+	fmt.Printf("CONC %s files=2+alias goroutines=%d+2 rounds=%d calls=%d mutating_calls=%d overlaps=%d mutating_overlaps=%d max_concurrent=%d torn=%d wrong=%d errors=%d\n",
 		status, n, rounds, st.Calls, st.MutatingCalls, st.Overlaps, st.MutatingOverlaps, st.MaxConcurrent, torn, wrong, errs)
 	if !ok {
 		return 1
